@@ -34,7 +34,8 @@ def baseline_nested():
 
 
 def is_private(name):
-    return name.startswith('_') and not (name.startswith('__') and name.endswith('__'))
+    # leading underscore, or the package's own convention for processor helpers: a trailing underscore (trans_)
+    return (name.startswith('_') or (name.endswith('_') and len(name) > 1)) and not (name.startswith('__') and name.endswith('__'))
 
 
 class Unsupported(Exception):
@@ -337,6 +338,37 @@ class _Beta(ast.NodeTransformer):
         return n
 
 
+def _simplify_bool(e):
+    """`False or x` -> x, `True and x` -> x, `True or x` -> True, `False and x` -> False, `not <const>` folded (after constant parameters were substituted)"""
+    if isinstance(e, ast.UnaryOp) and isinstance(e.op, ast.Not):
+        v = _simplify_bool(e.operand)
+        if isinstance(v, ast.Constant) and isinstance(v.value, (bool, type(None))):
+            return ast.copy_location(ast.Constant(value=not v.value), e)
+        e.operand = v
+        return e
+    if isinstance(e, ast.BoolOp):
+        vals = [_simplify_bool(v) for v in e.values]
+        is_or = isinstance(e.op, ast.Or)
+        out = []
+        for i, v in enumerate(vals):
+            if isinstance(v, ast.Constant) and isinstance(v.value, (bool, type(None))):
+                if bool(v.value) == is_or:
+                    # decides the whole expression unless an earlier operand has effects (calls): keep those
+                    if not any(isinstance(n, ast.Call) for o in out for n in ast.walk(o)):
+                        return ast.copy_location(ast.Constant(value=bool(v.value)), e)
+                    out.append(v)
+                    break
+                continue        # neutral element
+            out.append(v)
+        if not out:
+            return ast.copy_location(ast.Constant(value=not is_or), e)
+        if len(out) == 1:
+            return out[0]
+        e.values = out
+        return e
+    return e
+
+
 def _fold(stmts):
     """dead-branch elimination after constant parameters were substituted: `if True: A else: B` -> A"""
     out = []
@@ -347,6 +379,8 @@ def _fold(stmts):
         if isinstance(s, ast.Try):
             for hd in s.handlers:
                 hd.body = _fold(hd.body)
+        if isinstance(s, (ast.If, ast.While)):
+            s.test = _simplify_bool(s.test)
         if isinstance(s, ast.If):
             t = s.test
             neg = False
